@@ -44,7 +44,8 @@ import (
 
 func main() { Main("c16", runC16) }
 
-const canonT = "/tmp/vh-c16"
+const canonTop = "/tmp"
+const canonT = canonTop + "/v" // stands for the sandbox directory /tmp/vh-c16-XXXX
 const srcDir = canonT + "/src/c0"
 
 type meta struct {
@@ -91,7 +92,16 @@ func entriesTerm(es []entry) string {
 	return CList(items)
 }
 
+type snapKey struct {
+	dev   uint64
+	ino   uint64
+	size  int64
+	mtime int64
+}
+
 type world struct {
+	cache map[snapKey]*meta // content of files already read, by inode identity
+	cur   map[string]node   // snapshot after the last operation (nil = unknown)
 	depth int
 	T, M  string // real sandbox directory, marker directory
 	root  string // canonical clean plugin root
@@ -201,9 +211,9 @@ func newWorld(depth int) *world {
 	for j := 1; j < depth; j++ {
 		chain = append(chain, fmt.Sprintf("%s/r%d", chain[len(chain)-1], j))
 	}
-	root := chain[len(chain)-1] + "/plugins"
+	root := chain[len(chain)-1] + "/p"
 	w.root = root
-	es := []entry{{"/tmp", node{Dir: true}}}
+	es := []entry{{canonTop, node{Dir: true}}}
 	for _, d := range chain {
 		es = append(es, entry{d, node{Dir: true}},
 			entry{d + "/victim", node{Dir: true}},
@@ -247,7 +257,7 @@ func newWorld(depth int) *world {
 func (w *world) build() {
 	os.RemoveAll(w.T)
 	for _, e := range w.tmpl {
-		if e.Path == "/tmp" {
+		if e.Path == canonTop {
 			continue
 		}
 		if err := w.writeEntry(e); err != nil {
@@ -255,13 +265,14 @@ func (w *world) build() {
 		}
 	}
 	w.built, w.dirty = true, false
+	w.cur = nil
 	// the template must describe exactly what is on disk
 	snap := w.snapshot()
 	if len(snap) != len(w.tmpl)-1 {
 		panic(fmt.Sprintf("c16: world template has %d entries, disk has %d", len(w.tmpl)-1, len(snap)))
 	}
 	for _, e := range w.tmpl {
-		if e.Path == "/tmp" {
+		if e.Path == canonTop {
 			continue
 		}
 		if n, ok := snap[e.Path]; !ok || !n.eq(e.N) {
@@ -295,8 +306,20 @@ func (w *world) snapshot() map[string]node {
 			out[cp] = node{}
 			return nil
 		}
-		content, _ := os.ReadFile(p)
-		out[cp] = node{X: info.Mode().Perm()&0o100 != 0, Meta: parseScript(content)}
+		var key snapKey
+		if st, ok := info.Sys().(*syscall.Stat_t); ok {
+			key = snapKey{st.Dev, st.Ino, info.Size(), info.ModTime().UnixNano()}
+		}
+		m, ok := w.cache[key]
+		if !ok || key.ino == 0 {
+			content, _ := os.ReadFile(p)
+			m = parseScript(content)
+			if w.cache == nil {
+				w.cache = map[snapKey]*meta{}
+			}
+			w.cache[key] = m
+		}
+		out[cp] = node{X: info.Mode().Perm()&0o100 != 0, Meta: m}
 		return nil
 	})
 	return out
@@ -405,9 +428,9 @@ func runC16(a *Args) error {
 		case 1:
 			return wd.root + "/"
 		case 2:
-			return strings.TrimSuffix(wd.root, "/plugins") + "/./plugins"
+			return strings.TrimSuffix(wd.root, "/p") + "/./p"
 		case 3:
-			return strings.TrimSuffix(wd.root, "/plugins") + "//victim/../plugins"
+			return strings.TrimSuffix(wd.root, "/p") + "//victim/../p"
 		}
 		return wd.root
 	}
@@ -431,9 +454,13 @@ func runC16(a *Args) error {
 			}
 		}
 		os.Remove(wd.marker())
-		before := wd.snapshot()
+		before := wd.cur
+		if before == nil || len(extras) > 0 {
+			before = wd.snapshot()
+		}
 		f()
 		after := wd.snapshot()
+		wd.cur = after
 		var o fsObs
 		o.exec = wd.readMarker()
 		for p := range before {
@@ -462,9 +489,11 @@ func runC16(a *Args) error {
 		if clean {
 			if len(extras) > 0 || len(o.written) > 0 || len(o.removed) > 0 {
 				os.RemoveAll(wd.real(srcDir))
+				wd.cur = nil
 			}
 		} else {
 			wd.dirty = true
+			wd.cur = nil
 		}
 		return o
 	}
@@ -628,7 +657,7 @@ func runC16(a *Args) error {
 	// ---- the name grammar ----
 	var names []string
 	add := func(n string) { names = append(names, n) }
-	tails := []string{"victim", "x", "", "victim/victim", "victim/notation-victim", "notation-..", "plugins/good", "plugins", "good",
+	tails := []string{"victim", "x", "", "victim/victim", "victim/notation-victim", "notation-..", "p/good", "p", "good",
 		"/victim", "/tmp/vh-c16-none/victim", "etc/vh-c16-none", ".", "victim/", "victim/."}
 	for k := 0; k <= 8; k++ {
 		up := strings.Repeat("../", k)
@@ -653,7 +682,7 @@ func runC16(a *Args) error {
 		"good/../other", "good/sub", "good/./sub", "good/sub/..", "good/notation-good", "other/other", "./", "/", "//", "/.", "/..", "../", "..//", "./..", "./.",
 		"a\\b", "..\\victim", "good\\", "\\", "\\..", "..\\", "a\\..\\b", "\\good", "good\\sub",
 		"good\x00", "\x00", "../\x00", "go\x00od", "\x00good", "good\x00/../x", ".\x00", "..\x00",
-		"good", "other", "broken", "noexec", "afile", "mism", "missing", "victim", "x", "plugins", "a b", " good", "good ", " ", "  ", "\t", "\n", " \t\n", "a\nb", "-", "~", "~root", "$HOME", "`id`",
+		"good", "other", "broken", "noexec", "afile", "mism", "missing", "victim", "x", "p", "a b", " good", "good ", " ", "  ", "\t", "\n", " \t\n", "a\nb", "-", "~", "~root", "$HOME", "`id`",
 		"notation-", "notation-good", "a:b", "C:", "C:\\x", "a*b", "a?b", "%2e%2e", "..%2f", "%2e%2e%2fvictim", "..%2fvictim", "..%5cvictim", "g\xc3\xa9", "\xef\xbc\x8e\xef\xbc\x8e", "..\xe2\x88\x95victim",
 		"\xe2\x80\xa6", "\xff", "..\xff", "good\r", "\x7f", "con", "nul", "good.exe", "GOOD", "Good",
 		strings.Repeat("a", 255), strings.Repeat("a", 256), strings.Repeat("a", 300), "../" + strings.Repeat("a", 300), strings.Repeat("a", 300) + "/..", strings.Repeat("a", 300) + "/../good",
@@ -665,7 +694,7 @@ func runC16(a *Args) error {
 	if thorough {
 		nRandom = 30000
 	}
-	tokens := []string{"..", "..", ".", "/", "/", "/", "\\", "\x00", "a", "good", "victim", "x", "other", " ", "plugins", "notation-", "b", "r1", "sub", "afile", "...", "-"}
+	tokens := []string{"..", "..", ".", "/", "/", "/", "\\", "\x00", "a", "good", "victim", "x", "other", " ", "p", "notation-", "b", "r1", "sub", "afile", "...", "-"}
 	for k := 0; k < nRandom; k++ {
 		n := 1 + rng.Intn(7)
 		var b strings.Builder
@@ -685,12 +714,17 @@ func runC16(a *Args) error {
 		}
 		return true
 	}
+	// jobs are collected first and then interleaved (names : installs), so that
+	// the expensive install cases are spread over all shards
+	var nameJobs, installJobs []func()
 	for i, n := range names {
+		i, n := i, n
 		fixed := i < nFixed
 		doVerify := asciiOnly(n) && len(n) < 400 && (fixed && i%2 == 0 || !fixed && i%6 == 0 || thorough && fixed)
 		if thorough && fixed {
 			for d := 1; d <= 4; d++ {
-				nameOps(n, d, (i+d)%4, doVerify, vf)
+				d := d
+				nameJobs = append(nameJobs, func() { nameOps(n, d, (i+d)%4, doVerify, vf) })
 			}
 			continue
 		}
@@ -699,7 +733,7 @@ func runC16(a *Args) error {
 		if i%5 == 4 {
 			v = 1 + (i/5)%3
 		}
-		nameOps(n, d, v, doVerify, vf)
+		nameJobs = append(nameJobs, func() { nameOps(n, d, v, doVerify, vf) })
 	}
 
 	// ---- installs ----
@@ -707,7 +741,8 @@ func runC16(a *Args) error {
 		name string
 		n    node
 	}
-	installCase := func(d, v int, fromFile bool, files []srcFile, subdir bool, ow bool) {
+	var instSeq int
+	installNow := func(d, v int, fromFile bool, files []srcFile, subdir bool, ow bool) {
 		my := id
 		id++
 		if !w.Want(my) {
@@ -763,22 +798,31 @@ func runC16(a *Args) error {
 		nontriv := len(o.exec) > 0 || len(o.written) > 0 || len(o.removed) > 0
 		emit(my, c, wd, wname, rname, extras, CApp("OInstall", CStr(src), CBool(ow)), errc, "MNone", o, nil, nontriv)
 	}
+	installCase := func(d, v int, fromFile bool, files []srcFile, subdir bool, ow bool) {
+		installJobs = append(installJobs, func() { installNow(d, v, fromFile, files, subdir, ow) })
+	}
 	instNames := []string{"..", ".", "...", "a\\b", "..\\victim", "good", "other", "broken", "noexec", "afile", "mism", "fresh", "victim", "x", " ", "a b", "notation-", "-",
-		"good.", ".good", "plugins", "%2e%2e", "\n", "g\xc3\xa9", strings.Repeat("a", 240), strings.Repeat("a", 246), "C:", "\\", "..\\..", "new\\"}
+		"good.", ".good", "p", "%2e%2e", "\n", "g\xc3\xa9", strings.Repeat("a", 240), strings.Repeat("a", 246), "C:", "\\", "..\\..", "new\\"}
 	for _, n := range instNames {
 		if !utf8.ValidString(n) {
 			continue
 		}
+		vers := []int{7}
+		if n == "good" || n == "other" {
+			vers = []int{3, 5, 7} // around the installed versions 5 and 3
+		}
 		for _, ow := range []bool{false, true} {
-			for _, ver := range []int{3, 5, 7} {
-				d := 1 + int(id)%4
+			for _, ver := range vers {
+				instSeq++
+				d := 1 + instSeq%4
 				fn := "notation-" + n
 				// from a file
 				installCase(d, 0, true, []srcFile{{fn, file(true, n, ver)}}, false, ow)
 				// from a directory: the executable alone, with a library and a sub-directory
-				installCase(d, int(id)%4, false, []srcFile{{fn, file(true, n, ver)}, {"lib.so", node{}}}, true, ow)
+				installCase(d, instSeq%4, false, []srcFile{{fn, file(true, n, ver)}, {"lib.so", node{}}}, true, ow)
 			}
-			d := 1 + int(id)%4
+			instSeq++
+			d := 1 + instSeq%4
 			fn := "notation-" + n
 			// not executable: file install refuses, directory install sets the bit on the single candidate
 			installCase(d, 0, true, []srcFile{{fn, file(false, n, 7)}}, false, ow)
@@ -798,6 +842,21 @@ func runC16(a *Args) error {
 	installCase(1, 0, false, []srcFile{{"readme", node{}}}, true, true)
 	installCase(2, 0, true, []srcFile{{"plugin-good", file(true, "good", 7)}}, false, true)
 	installCase(2, 0, true, []srcFile{{"notation-", file(true, "", 7)}}, false, true)
+
+	// interleave
+	{
+		ni, ii := 0, 0
+		for ni < len(nameJobs) || ii < len(installJobs) {
+			// keep the two streams in proportion
+			if ii >= len(installJobs) || (ni < len(nameJobs) && ni*len(installJobs) <= ii*len(nameJobs)) {
+				nameJobs[ni]()
+				ni++
+			} else {
+				installJobs[ii]()
+				ii++
+			}
+		}
+	}
 
 	// ---- listings ----
 	listCases(a, w, rng, &id, thorough)
